@@ -142,7 +142,7 @@ def _show(state):
     return {k: (dict(v) if isinstance(v, dict) else v) for k, v in state.items() if k != "cache"} | {"cache-keys": sorted(state.get("cache", {}))}
 
 
-def run_one(spec, request, num_workers, chunksize, schedule, fail=(), check_invariant=True, callbacks_extra=None, packed=False):
+def run_one(spec, request, num_workers, chunksize, schedule, fail=(), check_invariant=True, callbacks_extra=None, packed=False, rerun=False):
     """Run the real get_async once under `schedule` (iterator of choice indices).
     Returns dict(outcome=..., choices=[(n_pending, chosen)...]).  Raises Violation on a property failure."""
     import dask.local as L
@@ -235,6 +235,8 @@ def run_one(spec, request, num_workers, chunksize, schedule, fail=(), check_inva
                 # (failed=True) and re-raised by the scheduler loop; the default of get_async re-raises inside the worker
                 import dask.threaded as _TH
                 kw_pack = {"pack_exception": _TH.pack_exception}
+            if rerun:
+                kw_pack["rerun_exceptions_locally"] = True   # a debugging aid: must not change what is kept or released
             res = L.get_async(submit, num_workers, dsk, request, callbacks=cbs, chunksize=chunksize, cache=user_cache, **kw_pack)
             outcome = ("value", res)
         except FailingTask as e:
@@ -444,6 +446,27 @@ def sweep(tier, seed=0, with_failures=True, time_budget=None):
                 break
     finally:
         _PRODUCER = False
+    # rerun_exceptions_locally=True with no failing task: same values, same releases, nothing left in the cache
+    for n in range(1, 4):
+        for spec in graph_specs(n, ("T", "D", "A")):
+            for req in requests_for(n)[:4]:
+                nw, cs = configs[1]
+                cases += 1
+                args = {"graph": spec, "request": req, "num_workers": nw, "chunksize": cs, "failing": (), "rerun_exceptions_locally": True}
+                try:
+                    runs += all_schedules(spec, req, nw, cs, (), limit=10, rerun=True)
+                except Violation as v:
+                    fails.append(rtc.Failure("get_async", args, "ensures", v.clause, v.detail))
+                except Hang as h:
+                    fails.append(rtc.Failure("get_async", args, "timeout", "C04-never-hangs", str(h)))
+                except BaseException as e:  # noqa
+                    fails.append(rtc.Failure("get_async", args, "exception", type(e).__name__, repr(e)))
+                if fails:
+                    break
+            if fails:
+                break
+        if fails:
+            break
     for n in range(1, nmax + 1):
         for spec in with_null_literals(n):
             null_variant = any(k in ("N", "Z") for k, _ in spec)
@@ -563,6 +586,14 @@ def sweep(tier, seed=0, with_failures=True, time_budget=None):
 def replay(native):
     args = eval(native["args_repr"])
     global _PRODUCER
+    if args.get("rerun_exceptions_locally"):
+        try:
+            all_schedules(tuple(args["graph"]), args["request"], args["num_workers"], args["chunksize"], (), limit=10, rerun=True)
+        except (Violation, Hang) as v:
+            return {"reproduced": True, "detail": str(v)}
+        except BaseException as e:  # noqa
+            return {"reproduced": True, "detail": repr(e)}
+        return None
     if "tasks" in args:
         _PRODUCER = True
         try:
@@ -574,6 +605,10 @@ def replay(native):
         finally:
             _PRODUCER = False
         return None
+    if args.get("entry_point"):
+        r = packing_sweep("quick")
+        hit = [f for f in r["failures"] if f.args.get("scheduler") == args.get("scheduler")]
+        return {"reproduced": True, "detail": hit[0].detail} if hit else None
     if "raises" in args:
         r = raising_kinds_sweep("quick")
         hit = [f for f in r["failures"] if f.args == args]
@@ -695,6 +730,15 @@ def raising_kinds_sweep(tier, seed=0):
             dsk = {"b": Task("b", ok), "a": Task("a", lambda x: bad(), TaskRef("b")), "c": Task("c", dep, TaskRef("a"))}
         return dsk, ran
 
+    from multiprocessing.pool import ThreadPool as _ThreadPool
+
+    def _with_pool(call):
+        tp = _ThreadPool(2)   # a fresh pool per call: a worker that died in one case must not starve the next
+        try:
+            return call(tp)
+        finally:
+            tp.terminate()
+
     try:
         ref_types = []
         for mk in kinds:
@@ -704,22 +748,49 @@ def raising_kinds_sweep(tier, seed=0):
             except BaseException as e:  # next(iter([])) raises while being built
                 ref_types.append((type(e), e.args))
         runners = [("get_sync", lambda d: L.get_sync(d, "c")), ("threaded.get(num_workers=2)", lambda d: TH.get(d, "c", num_workers=2)), ("threaded.get(num_workers=2, chunksize=2)", lambda d: TH.get(d, "c", num_workers=2, chunksize=2)),
-                   ("get_sync(rerun_exceptions_locally=True)", lambda d: L.get_sync(d, "c", rerun_exceptions_locally=True))]
+                   ("get_sync(rerun_exceptions_locally=True)", lambda d: L.get_sync(d, "c", rerun_exceptions_locally=True)),
+                   # the adaptors for multiprocessing.pool-style pools (a thread pool here), with get_async's own defaults
+                   ("get_async(MultiprocessingPoolExecutor(ThreadPool).submit)", lambda d: _with_pool(lambda tp: L.get_async(L.MultiprocessingPoolExecutor(tp).submit, 2, d, "c"))),
+                   ("get_apply_async(ThreadPool.apply_async)", lambda d: _with_pool(lambda tp: L.get_apply_async(tp.apply_async, 2, d, "c"))),
+                   ("threaded.get(pool=ThreadPool)", lambda d: _with_pool(lambda tp: TH.get(d, "c", pool=tp)))]
         for (mk, (ety, eargs)) in zip(kinds, ref_types):
             for where in ("leaf", "inner"):
                 for rname, run in runners:
+                    if "ThreadPool" in rname and "threaded.get" not in rname and not issubclass(ety, Exception):
+                        # with get_async's default pack_exception the exception escapes inside the pool worker, and
+                        # multiprocessing.pool workers only report Exception subclasses (a BaseException kills the worker)
+                        continue
                     cases += 1
                     dsk, ran = scenario(mk, where)
                     fin = []
                     from dask.callbacks import Callback
                     msg = None
+                    import signal as _signal
+
+                    class _Stuck(BaseException):
+                        pass
+
+                    def _alarm(*a_):
+                        raise _Stuck()
+
+                    old_h = _signal.signal(_signal.SIGALRM, _alarm)
+                    _signal.setitimer(_signal.ITIMER_REAL, 10)
                     try:
                         with Callback(finish=lambda d, s, failed: fin.append(failed)):
                             run(dsk)
                         msg = f"{rname}: a task raising {ety.__name__} did not make get() raise"
+                    except _Stuck:
+                        msg = f"{rname}: a task raising {ety.__name__} makes get() block (no exception after 10 s)"
                     except BaseException as e:  # noqa
                         if type(e) is not ety or e.args != eargs:
                             msg = f"{rname}: the task raised {ety.__name__}{eargs!r} but get() raised {type(e).__name__}{e.args!r}"
+                    finally:
+                        _signal.setitimer(_signal.ITIMER_REAL, 0)
+                        _signal.signal(_signal.SIGALRM, old_h)
+                    if msg and "block" in msg:
+                        fails.append(rtc.Failure("get_async", {"raises": ety.__name__, "failing_task": where, "scheduler": rname}, "timeout", "C04-never-hangs", msg))
+                        Callback.active = set()
+                        break
                     if msg is None and "dep" in ran:
                         msg = f"{rname}: a dependent of the failed task ran"
                     if msg is None and fin != [True]:
@@ -736,6 +807,59 @@ def raising_kinds_sweep(tier, seed=0):
         from dask.callbacks import Callback
         Callback.active = set()
     return {"function": "dask/local.py:get_async via get_sync / threaded.get (real code)", "bounded": True,
-            "bound": {"exception kinds": "StopIteration, StopAsyncIteration, GeneratorExit, KeyError, ValueError(2 args), custom, LookupError(), AssertionError, OSError(2 args), next(iter([]))", "failing task": "leaf / inner", "schedulers": 4},
+            "bound": {"exception kinds": "StopIteration, StopAsyncIteration, GeneratorExit, KeyError, ValueError(2 args), custom, LookupError(), AssertionError, OSError(2 args), next(iter([]))", "failing task": "leaf / inner", "schedulers": "get_sync, threaded.get (2 settings), rerun_exceptions_locally, MultiprocessingPoolExecutor / get_apply_async / threaded.get over a multiprocessing.pool.ThreadPool", "hang detection": "10 s alarm per call"},
             "cases": cases, "distinct_nontrivial": cases, "failures_found": len(fails), "wall_s": round(time.time() - t0, 2),
             "samples": [{"native_case": {"raises": "StopIteration", "failing_task": "leaf", "scheduler": "get_sync"}}], "failures": fails}
+
+
+def _mp_inc(x):
+    return x + 1
+
+
+def _mp_add(x, y):
+    return x + y
+
+
+def packing_sweep(tier, seed=0):
+    """C01 through the public entry points of every local scheduler (dask.get, dask.threaded.get,
+    dask.multiprocessing.get with one shared process pool): the result is packed in the same nesting as the request."""
+    import time
+    from concurrent.futures import ProcessPoolExecutor
+
+    import dask
+    import dask.multiprocessing as MP
+    import dask.threaded as TH
+    from dask.local import get_sync
+
+    t0 = time.time()
+    cases, fails = 0, []
+    dsk = {"a": 1, "b": (_mp_inc, "a"), "c": (_mp_add, "a", "b"), "d": (_mp_add, "c", 10), "e": "d"}
+    val = {"a": 1, "b": 2, "c": 3, "d": 13, "e": 13}
+
+    def pack(req):
+        return tuple(pack(r) for r in req) if isinstance(req, list) else val[req]
+
+    requests = ["a", "d", ["a"], ["b", "c"], [["b"], "c"], [[], ["d"]], [["a", ["b", ["c"]]], "e"], [["e", "e"], ["a"]], []]
+    pool = ProcessPoolExecutor(2)
+    try:
+        runners = [("get_sync", lambda r: get_sync(dsk, r)), ("threaded.get", lambda r: TH.get(dsk, r, num_workers=2)),
+                   ("multiprocessing.get", lambda r: MP.get(dsk, r, pool=pool)), ("multiprocessing.get(optimize_graph=False)", lambda r: MP.get(dsk, r, pool=pool, optimize_graph=False)),
+                   ("multiprocessing.get(chunksize=1)", lambda r: MP.get(dsk, r, pool=pool, chunksize=1))]
+        for rname, run in runners:
+            for req in requests:
+                cases += 1
+                try:
+                    got = run(req)
+                    want = pack(req)
+                    msg = None if got == want else f"{rname}(dsk, {req!r}) = {got!r}, the request's nesting gives {want!r}"
+                except Exception as e:  # noqa
+                    msg = f"{rname}(dsk, {req!r}) raised {type(e).__name__}: {e}"
+                if msg:
+                    fails.append(rtc.Failure("get_async", {"request": req, "scheduler": rname, "entry_point": True}, "ensures", "C01-value", msg))
+                    break
+    finally:
+        pool.shutdown(wait=True, cancel_futures=True)
+    return {"function": "dask/local.py, dask/threaded.py, dask/multiprocessing.py: public get() entry points (real code, one shared process pool)", "bounded": True,
+            "bound": {"graph": "5 keys (literal, tasks, alias)", "requests": len(requests), "schedulers": 5},
+            "cases": cases, "distinct_nontrivial": cases, "failures_found": len(fails), "wall_s": round(time.time() - t0, 2),
+            "samples": [{"native_case": {"request": [["b"], "c"], "scheduler": "multiprocessing.get"}}], "failures": fails[:3]}
